@@ -173,4 +173,18 @@ theorem C03_switch_results_final (P : Program) (val : Node → Option Val) (hsw 
   have hne := (safe_reach_sw hsw hsol h).data.noExc hsw.noHeads n v hr
   ⟨(safe_reach_sw hsw hsol h).data.agree n v hr hne, (safe_reach_sw hsw hsol h).data.vals n v hr, hne⟩
 
+/-! ### Pipelines with switches and one-ofs: every body invocation, under every schedule -/
+
+/-- **C03 (switch / one-of pipelines)**: every observed body call has exactly the dataflow values of its sources as
+arguments (selected case for a switch, first successful candidate for a one-of), all sources have values — so no argument
+is a failure stored by a one-of scope —, first invocation -/
+theorem C03_oneof_body_arguments (P : Program) (val : Node → Option Val) (hone : OneP P) (hsol : SolutionOne P val)
+    (s : St) (log : List Obs) (h : Exec P s log) (n inv k : Nat) (kw : Kwargs) (hb : Obs.body n inv k kw ∈ log) :
+    kw = kwFrom P val n ∧ (∀ p ∈ P.g.preds n, (val p).isSome = true) ∧ inv = 0 := by
+  have a : Att P val n k kw inv := (safe_exec hone hsol h).2 _ hb
+  refine ⟨a.kw_eq, ?_, a.inv0⟩
+  have := a.preds
+  rw [List.all_eq_true] at this
+  exact this
+
 end MLPE.Eng
